@@ -1479,7 +1479,7 @@ Qed.
 Lemma never_other_bindings_lemma : forall special use_code sv cv F call reg inv args kwargs,
   wfb special F = true ->
   wsplit special (resolve call) false [] = Ok (reg, inv) ->
-  validate_params special use_code F reg inv = Ok (args, kwargs) ->
+  validate_params use_code F reg inv = Ok (args, kwargs) ->
   res_equiv (py_call F (sv :: cv :: args) kwargs) (py_bind sv cv F call).
 Proof.
   intros special use_code sv cv F call reg inv args kwargs WF Hs Hv.
